@@ -231,7 +231,7 @@ THEOREMS = ["T_Alg2 (A3.3/A3.4 and A3.7/A3.8 transcriptions = derivative of the 
 
 
 def run(ctx):
-    res = core.run_tlc("MC_C02", "MC_C02_%s.cfg" % ctx.tier, timeout=3400)
+    res = core.run_model(ctx, "MC_C02", 3400, thorough_seeds=(2, 3))
     core.tlc_must_pass(res, "MC_C02")
     ctx.add_tlc(res, "exhaustive over the lattice; every transition emitted as an implementation test")
     ctx.theorems = THEOREMS
